@@ -156,6 +156,10 @@ pub fn batch(e: &Engine, cfg: &BatchCfg) -> BatchResult {
                     let idx = cfg.start + i;
                     cur[w].1.store(t0.elapsed().as_millis() as u64, Ordering::Relaxed);
                     cur[w].0.store(idx + 1, Ordering::Relaxed);
+                    if cfg!(miri) {
+                        // interpreter run (memory-safety oracle): name the run so that an abort can be attributed
+                        eprintln!("MIRI-RUN {}", idx);
+                    }
                     let r = run_search(e, cfg.tier, cfg.verif_seed, idx, false);
                     cur[w].0.store(0, Ordering::Relaxed);
                     l_done += 1;
@@ -217,7 +221,8 @@ pub fn batch(e: &Engine, cfg: &BatchCfg) -> BatchResult {
         let cur = &cur;
         let finished = &finished;
         let noted: Vec<AtomicU64> = (0..jobs).map(|_| AtomicU64::new(0)).collect();
-        let allowance_ms = e.hang_allowance_s * 1000;
+        // under the interpreter everything is two to three orders of magnitude slower
+        let allowance_ms = e.hang_allowance_s * 1000 * if cfg!(miri) { 500 } else { 1 };
         let ename = e.name;
         let vseed = cfg.verif_seed;
         sc.spawn(move || loop {
